@@ -450,6 +450,38 @@ func c17Run(c *Ctx) {
 			}
 		}
 	}
+	// 3d. built-ins as values: one call expression `f(x)` executed with f holding one built-in after another
+	// (through a parameter, a variable re-assigned in a loop, an array element, an object property)
+	{
+		uns := []string{"abs", "sqrt", "round", "sin", "cos", "tan", "min", "max"}
+		args := []string{"-16", "16", "2.5", "0", "[4, 9, 1]", `"x"`}
+		for i, a := range uns {
+			for j, b := range uns {
+				if i == j {
+					continue
+				}
+				for _, x := range args {
+					src := Lines(Fun("apply", "f, x", " "+Ret("f(x)")+" "), Print(`"start"`), Print("apply("+B[a]+", "+x+")"), Print("apply("+B[b]+", "+x+")"), Print("apply("+B[a]+", "+x+")"),
+						Var("fs", "["+B[a]+", "+B[b]+", "+B[a]+"]"), For(Var("i", "0"), "i < 3", "i = i + 1", "{ "+Var("f", "fs[i]")+" "+Print("f("+x+")")+" }"), Var("o", "{m: "+B[b]+"}"), Var("g", "o.m"), Print("g("+x+")"), "g = "+B[a]+";", Print("g("+x+")"), Print(`"end"`))
+					if c.Mine() {
+						c17Judge(c, &Case{Gen: "builtins-as-values", Src: src, X: map[string]string{"fn": "asvalue", "nargs": "1"}})
+					}
+				}
+			}
+		}
+	}
+	// 3e. min / max over long argument lists and long arrays
+	for _, n := range []int{2, 100, 255, 256, 257, 300, 1000} {
+		el := make([]string, n)
+		for i := range el {
+			el[i] = fmt.Sprint((i*37)%1009 - 500)
+		}
+		list := strings.Join(el, ", ")
+		src := Lines(Print(B["min"]+"("+list+")"), Print(B["max"]+"("+list+")"), Print(B["min"]+"(["+list+"])"), Print(B["max"]+"(["+list+"])"))
+		if c.Mine() {
+			c17Judge(c, &Case{Gen: "min-max-long-lists", Src: src, X: map[string]string{"fn": "minmax", "nargs": fmt.Sprint(n)}})
+		}
+	}
 	// 4. clock: causal bracket around the child process
 	for k := 0; k < 3; k++ {
 		if c.Mine() {
@@ -466,7 +498,7 @@ func init() {
 		Run:         c17Run,
 		Judge:       c17Judge,
 		MustCount: func(c *Ctx) []string {
-			out := []string{"outcome:value", "outcome:fault", "results:abs", "results:sqrt", "results:sin", "results:cos", "results:tan", "results:round", "results:pow", "gen:min-max-permutations", "gen:nested-builtins", "gen:long-runs", "clock_in_bracket", "cli_runs", "fault:Arity", "fault:BuiltinFailure"}
+			out := []string{"outcome:value", "outcome:fault", "results:abs", "results:sqrt", "results:sin", "results:cos", "results:tan", "results:round", "results:pow", "gen:min-max-permutations", "gen:nested-builtins", "gen:long-runs", "gen:builtins-as-values", "gen:min-max-long-lists", "clock_in_bracket", "cli_runs", "fault:Arity", "fault:BuiltinFailure"}
 			return out
 		},
 	})
